@@ -4,7 +4,15 @@ from __future__ import annotations
 import itertools
 
 from ..oracles import Trace, V
-from ..world import make  # noqa: F401
+from ..world import make as _make_plain
+
+
+def make(spec, loop):
+    """scenarios with a write-ahead log on some bus run on C17's world (in-memory file whose open / write are explorer-owned waits)"""
+    if any(c.get('wal') for c in spec['scn']['buses'].values()):
+        from .c17 import WalWorld
+        return WalWorld(spec, loop)
+    return _make_plain(spec, loop)
 
 LEVEL = 'model_checking'
 RULE = ('event_timeout in {0.5, 1.0} on parent and/or child; handler shapes: pause only; dispatch children then pause; await a child (own/other bus) whose handler pauses, '
@@ -80,6 +88,20 @@ def families(tier):
         out.append(dict(prop='C10', family='c10.timeouts_slow_callbacks', id=f'c10/slow-{shape}-p{tp}-c{tc}-k{k}', cfg=dict(cfg, busy_timers=1, cap=30000 if deep else 2500),
                         params=dict(shape=shape, tp=tp, tc=tc, slow=True),
                         scn=dict(buses={b: {} for b in names}, order=names, handlers=hs, main=main, actors=[], forwards=[], settle=2.0)))
+    # the bus of the awaited child keeps a write-ahead log: the deadline of the awaiting handler may pass while the child - all of whose handlers are done - is
+    # being WRITTEN (opening and writing the file are waits like any other).  The child still reaches completion, the parent still gets its TimeoutError
+    for cb, chc, second in itertools.product('AB', ('ret', 'pause'), (False, True)):
+        names = ['A', 'B'] if cb == 'B' else ['A']
+        hs = [dict(bus='A', pat='P', name='hp', prog=[('disp', cb, 'C', 'await'), ('pause',)]), dict(bus=cb, pat='C', name='hc', prog=[('ret', 1)] if chc == 'ret' else [('pause',), ('ret', 1)])]
+        if second:
+            hs.append(dict(bus='A', pat='P', name='hp_next', prog=[('ret', 2)]))
+        for b in names:
+            hs.append(dict(bus=b, pat='X', name='hs' + b, prog=[('ret', 0)]))
+        main = [('disp', 'A', 'P', 'ff', {'timeout': 0.5}), ('pause',), ('disp', 'A', 'X', 'ff')] + ([('disp', 'B', 'X2', 'ff')] if cb == 'B' else []) + [('idle', b) for b in names]
+        for order in ([names] if len(names) == 1 else [names, names[::-1]]):
+            out.append(dict(prop='C10', family='c10.timeouts_while_writing_the_log', id=f'c10/wal-c{cb}-{chc}-s{int(second)}-o{"".join(order)}', cfg=dict(cfg, window=1.2, max_targets=3),
+                            params=dict(shape='wal', tp=0.5, tc=None),
+                            scn=dict(buses={b: dict(wal=f'/wal/{b.lower()}.jsonl') for b in names}, order=order, handlers=hs, main=main, actors=[], forwards=[], settle=3.0)))
     # a forwarded event whose handler on the forwarded-to bus overruns; also as the awaited child of a handler with its own deadline
     for place, tb, fwd_first in itertools.product(('root', 'child_aw'), (0.5, 1.0), (False, True)):
         if place == 'root':
